@@ -65,7 +65,10 @@ struct Graph {
     v0layers: Option<Vec<(u16, u16)>>,
     /// add an ItemVariationStore (one axis) so that Var* paints get non-zero deltas
     var_store: bool,
-    var_clip: bool,
+    /// clip box shape of ClipList entry k = (clip_salt + k) % N_CLIP_SHAPES (see `clip_box_for`)
+    clip_salt: u32,
+    /// paint at this entry of the fixed location list instead of a random one
+    force_coords: Option<usize>,
     salt: u16,
 }
 
@@ -230,6 +233,25 @@ fn build_paint(g: &Graph, i: usize) -> w::Paint {
     }
 }
 
+const N_CLIP_SHAPES: u32 = 6;
+fn clip_shape(g: &Graph, k: usize) -> u32 {
+    (g.clip_salt.wrapping_add(k as u32)) % N_CLIP_SHAPES
+}
+/// Clip boxes of every shape a hostile or variable font can have; the real code pushes (and pops)
+/// the box whatever its shape.  0 regular, 1 zero area, 2 x-inverted, 3 y-inverted (static);
+/// 4 variable, regular at the default location but x_min > x_max at coords [1.0] (deltas +100 / +50
+/// on x_min 0 / x_max 40); 5 variable format without variation, inverted.
+fn clip_box_for(shape: u32, k: i32) -> w::ClipBox {
+    match shape {
+        0 => w::ClipBox::format_1(fw(0), fw(0), fw(500 + k), fw(500)),
+        1 => w::ClipBox::format_1(fw(k), fw(7), fw(k), fw(7)),
+        2 => w::ClipBox::format_1(fw(500 + k), fw(0), fw(100), fw(500)),
+        3 => w::ClipBox::format_1(fw(0), fw(500 + k), fw(500), fw(100)),
+        4 => w::ClipBox::format_2(fw(0), fw(0), fw(40), fw(500 + k), 0),
+        _ => w::ClipBox::format_2(fw(600 + k), fw(0), fw(100), fw(-500), 0xFFFF_FFFF),
+    }
+}
+
 /// Compiles the graph to font bytes (a COLR-only font).  None if the graph cannot be expressed
 /// (too large once sharing is expanded, or the Bad placeholder pattern is ambiguous).
 fn compile(g: &Graph) -> Option<Vec<u8>> {
@@ -261,16 +283,12 @@ fn compile(g: &Graph) -> Option<Vec<u8>> {
             .iter()
             .enumerate()
             .map(|(k, (a, b))| {
-                let bx = if g.var_clip && k % 2 == 0 {
-                    w::ClipBox::format_2(fw(0), fw(0), fw(500 + k as i32), fw(500), (k % 4) as u32)
-                } else {
-                    w::ClipBox::format_1(fw(0), fw(0), fw(500 + k as i32), fw(500))
-                };
+                let bx = clip_box_for(clip_shape(g, k), k as i32);
                 w::Clip::new(GlyphId16::new(*a), GlyphId16::new(*b), bx)
             })
             .collect();
         colr.clip_list = Some(w::ClipList::new(1, clips.len() as u32, clips)).into();
-        if g.var_store {
+        if g.var_store || (0..g.clips.len()).any(|k| clip_shape(g, k) == 4) {
             let regions = wv::VariationRegionList::new(1, vec![wv::VariationRegion::new(vec![wv::RegionAxisCoordinates::new(f2(0.0), f2(1.0), f2(1.0))])]);
             let data = wv::ItemVariationData::new(8, 0, vec![0], vec![100, 0x9C, 50, 7, 0xF0, 90, 1, 0x80]);
             colr.item_variation_store = Some(wv::ItemVariationStore::new(regions, vec![Some(data)])).into();
@@ -511,6 +529,22 @@ fn run_paint(bytes: &[u8], gid: u32, mode: u8, default_fill_glyph: bool, coords:
     }
 }
 
+/// shape of the root clip box the real code resolves for this glyph at this location (distribution only)
+fn root_clip_shape(bytes: &[u8], gid: u32, coords: &[F2Dot14]) -> Option<&'static str> {
+    let font = FontRef::new(bytes).ok()?;
+    let glyph = font.color_glyphs().get(GlyphId::new(gid))?;
+    let b = glyph.bounding_box(LocationRef::new(coords), skrifa::instance::Size::unscaled())?;
+    Some(if b.x_min > b.x_max {
+        "rootclip.x_inverted"
+    } else if b.y_min > b.y_max {
+        "rootclip.y_inverted"
+    } else if b.x_min == b.x_max || b.y_min == b.y_max {
+        "rootclip.zero_area"
+    } else {
+        "rootclip.regular"
+    })
+}
+
 /// The property's nesting condition checked directly: returns Err(position) at the first pop that
 /// does not match the innermost open push, Ok(open scopes left) otherwise.
 fn dyck(ev: &[Ev]) -> Result<usize, usize> {
@@ -695,7 +729,7 @@ fn random_graph(rng: &mut Rng) -> Graph {
     g.base = Some(base);
     g.clips = clip_ranges(rng, &gids);
     g.var_store = rng.chance(1, 2);
-    g.var_clip = rng.chance(1, 2);
+    g.clip_salt = rng.next_u32();
     if rng.chance(1, 4) {
         // a v0 part next to the v1 part
         let nl = rng.range(0, 4) as u16;
@@ -791,6 +825,7 @@ fn path_graph(rng: &mut Rng, edges: &[Edge], tail: Option<usize>, clip_on: &[u16
     g.layers = Some(layers[..last].iter().map(|l| l.unwrap_or(filler)).collect());
     g.base = Some(base);
     g.clips = clip_on.iter().map(|c| (*c, *c)).collect();
+    g.clip_salt = rng.next_u32();
     g.clips.sort();
     g.clips.dedup();
     g
@@ -826,12 +861,27 @@ fn main() {
         let mut subs = vec![];
         for gid in gids {
             for mode in modes {
-                let coords = rng.pick(&coords_sets).clone();
+                let coords = match g.force_coords {
+                    Some(k) => coords_sets[k % coords_sets.len()].clone(),
+                    None => rng.pick(&coords_sets).clone(),
+                };
                 let (cls, ev, overflow, dt) = run_paint(&bytes, *gid, *mode, false, &coords, &coq_g);
                 st.evaluations += 1;
                 max_dt = max_dt.max(dt);
                 max_ev = max_ev.max(ev.len());
                 st.count(&format!("class.{}", cls));
+                if *mode == modes[0] {
+                    if let Some(k) = root_clip_shape(&bytes, *gid, &coords) {
+                        st.count(k);
+                        let entry = g.clips.iter().position(|(a, b)| *a as u32 <= *gid && *gid <= *b as u32);
+                        if entry.map(|e| clip_shape(g, e)) == Some(4) {
+                            st.count(&format!("{}.variable_box", k));
+                        }
+                        if !g.var_store && !coords.is_empty() {
+                            st.count("rootclip.at_nondefault_location");
+                        }
+                    }
+                }
                 st.count(&format!("mode.{}", mode));
                 let key = format!("{} gid={} mode={} coords={:?} graph={}", name, gid, mode, coords.iter().map(|c| c.to_bits()).collect::<Vec<_>>(), coq_g);
                 let key_short = format!("{:016x}", fnv(key.as_bytes()));
@@ -965,6 +1015,7 @@ fn main() {
         g.layers = Some(vec![s0, l1]);
         g.base = Some(vec![(3, root)]);
         g.clips = vec![(3, 3)];
+        g.clip_salt = 2;
         run_graph(&g, "self_layer", &[3], &[0, 1], &mut rng, &mut st, &mut cw);
     }
     // ---- 3. errors after a push (bad grandchild, missing glyph, missing layer) under every wrapper
@@ -1018,6 +1069,7 @@ fn main() {
             g.layers = Some(layers);
             g.base = Some(base);
             g.clips = vec![(2, 5)];
+            g.clip_salt = inner as u32 + 2;
             run_graph(&g, "error_after_push", &[2, 5], &[0, 1, 2, 3], &mut rng, &mut st, &mut cw);
         }
     }
@@ -1056,6 +1108,27 @@ fn main() {
         let gl = g.add(Node::Glyph { gid: 8, child: root });
         g.base = Some(vec![(1, root), (2, gl)]);
         run_graph(&g, "wide_layers", &[1, 2], &[0], &mut rng, &mut st, &mut cw);
+    }
+    // ---- clip boxes of every shape on the ROOT glyph and on nested PaintColrGlyph targets, at every location
+    for shape in 0..N_CLIP_SHAPES {
+        for loc in 0..5usize {
+            let mut g = Graph::default();
+            let leaf = g.solid();
+            let t = g.xf(14, leaf);
+            let inner = g.add(Node::ColrGlyph { gid: 2 });
+            let gl = g.add(Node::Glyph { gid: 30, child: inner });
+            let s2 = g.solid();
+            let comp = g.add(Node::Composite { src: gl, mode: 4, backdrop: s2 });
+            g.layers = Some(vec![inner, comp]);
+            let root = g.add(Node::Layers { start: 0, num: 2 });
+            // glyph 1: root with a clip box, reaches glyph 2 (clip box of the next shape) directly and under a PaintGlyph
+            g.base = Some(vec![(1, root), (2, t), (3, leaf)]);
+            g.clips = vec![(1, 1), (2, 2)];
+            g.clip_salt = shape;
+            g.force_coords = Some(loc);
+            g.var_store = loc % 2 == 0;
+            run_graph(&g, "clip_shapes", &[1, 2, 3], &[0, 1], &mut rng, &mut st, &mut cw);
+        }
     }
     // ---- 5. random graphs and v0 tables
     let n_random = if thorough { 8000 } else { 900 };
